@@ -181,6 +181,15 @@ func (ie *ImageExtractor) processPicture(picture *html.Node) {
 		}
 	}
 
+	// Comments are not part of the picture either.
+	for child := picture.FirstChild; child != nil; {
+		next := child.NextSibling
+		if child.Type == html.CommentNode {
+			picture.RemoveChild(child)
+		}
+		child = next
+	}
+
 	// Sometimes there are sites that use <picture> without any <img> inside it.
 	// For these cases, we use one of the <source> as <img>.
 	imgs := dom.GetElementsByTagName(picture, "img")
